@@ -4,7 +4,7 @@ SDK_TRUST = "Cosmos-SDK (bank, staking, store, baseapp) is modelled, not verifie
 
 PROPS = {
     "C04": dict(
-        lean_modules=["PalomaModel.Props.C04"], gen=["Consts.lean"],
+        lean_modules=["PalomaModel.Props.C04", "PalomaModel.Props.Consts.C04"], gen=["Consts.lean", "ConstTable.lean"],
         harness_test="TestC04",
         extra_tests=[{"test": "TestC04Keeper", "dir": "C04K", "n_quick": 300, "n_thorough": 2500}],
         n_quick=3000, n_thorough=40000, thorough_seeds=8,
@@ -18,7 +18,7 @@ PROPS = {
         assumptions=["snapshot total = sum of shares (createNewSnapshot builds it so; C10 proves it for the snapshot model)"],
     ),
     "C01": dict(
-        lean_modules=["PalomaModel.Props.C01"], gen=["Atomicity.lean"],
+        lean_modules=["PalomaModel.Props.C01", "PalomaModel.Props.Consts.Bridge"], gen=["Atomicity.lean", "ConstTable.lean"],
         harness_test="TestBridge", env={"VERIF_PROP": "C01"},
         n_quick=120, n_thorough=1500, thorough_seeds=8, timeout_quick=900,
         spec_ops=[],
@@ -30,7 +30,7 @@ PROPS = {
         assumptions=["every message runs on a cached store committed only on success (baseapp per-message atomicity, reproduced by the harness)"],
     ),
     "C15": dict(
-        lean_modules=["PalomaModel.Props.C15"],
+        lean_modules=["PalomaModel.Props.C15", "PalomaModel.Props.Consts.Bridge"], gen=["ConstTable.lean"],
         harness_test="TestBridge", env={"VERIF_PROP": "C15"},
         n_quick=120, n_thorough=1500, thorough_seeds=8, timeout_quick=900,
         spec_ops=["send", "cancel"],
@@ -50,7 +50,7 @@ PROPS = {
         assumptions=["Admissible = no insert on a pending (sender, sequence) key with a changed priority - stronger than the literal precondition (unique pending keys), which holds for every history and is proved insufficient (keys_unique_always, literal_precondition_insufficient). It is discharged for the wired application by admission_admissible / mempool_wired under the external assumption ACovered (CometBFT re-checks everything the app pool holds after each commit); without re-check the replacement is reachable through the real app (stat finding.fullapp_*, Props/C19.md). NoMin (no pending priority = MinInt64) for completeness and CheckTx priority < MaxInt64-3 for the class clause are proved necessary and hold in the app because TxFeeSkipper returns 42 (model_constants_from_source ties the class table, the 42 and the app.go wiring to the source). Interleaving a live iterator with Insert/Remove is modelled: safety holds, completeness does not (live_remove_current_ends_iteration, live_reinsert_current_panics); baseapp SelectBy does not interleave"],
     ),
     "C02": dict(
-        lean_modules=["PalomaModel.Props.C02"], gen=["Consts.lean", "Claims.lean", "Auth.lean"],
+        lean_modules=["PalomaModel.Props.C02", "PalomaModel.Props.Consts.C02"], gen=["Consts.lean", "Claims.lean", "Auth.lean", "ConstTable.lean"],
         harness_test="TestC02",
         n_quick=150, n_thorough=2000, thorough_seeds=8, timeout_quick=900,
         # every observable of the oracle driver (cursor, observed flags, vote lists, minted total) is the property's own subject
@@ -62,7 +62,7 @@ PROPS = {
         assumptions=["validators stay bonded (checkOrchestratorValidatorInSet); pruning (cutoff 1000 nonces) is not reached"],
     ),
     "C13": dict(
-        lean_modules=["PalomaModel.Props.C13"], gen=["Atomicity.lean"],
+        lean_modules=["PalomaModel.Props.C13", "PalomaModel.Props.Consts.Bridge", "PalomaModel.Props.Consts.C13"], gen=["Atomicity.lean", "ConstTable.lean"],
         harness_test="TestBridge", env={"VERIF_PROP": "C13"},
         extra_tests=[{"test": "TestC13Prune", "dir": "C13B", "n_quick": 400, "n_thorough": 4000}],
         n_quick=120, n_thorough=1500, thorough_seeds=8, timeout_quick=900,
@@ -88,7 +88,7 @@ PROPS = {
         assumptions=["chain_reference_id is bound by the attestation key's store prefix, not by the hash"],
     ),
     "C16": dict(
-        lean_modules=["PalomaModel.Props.C16"],
+        lean_modules=["PalomaModel.Props.C16", "PalomaModel.Props.Consts.C16"], gen=["ConstTable.lean"],
         harness_test="TestC16",
         n_quick=150, n_thorough=1500, thorough_seeds=8, timeout_quick=900,
         spec_ops=["*"],  # every observable the driver prints for this property is the property's own subject (canonical state / verdicts)
@@ -98,7 +98,7 @@ PROPS = {
         assumptions=["wasm PerformMint mints to the contract (the admin) and then the contract itself transfers to mint_to_address: counted as a mint followed by the admin's own transfer"],
     ),
     "C08": dict(
-        lean_modules=["PalomaModel.Props.C08"], gen=["Nondet.lean"],
+        lean_modules=["PalomaModel.Props.C08", "PalomaModel.Props.Consts.Schedule"], gen=["Nondet.lean", "ConstTable.lean"],
         harness_test="TestC08",
         n_quick=6, n_thorough=60, thorough_seeds=4, timeout_quick=900,
         spec_ops=[],
@@ -111,7 +111,7 @@ PROPS = {
         assumptions=[],
     ),
     "C18": dict(
-        lean_modules=["PalomaModel.Props.C18"],
+        lean_modules=["PalomaModel.Props.C18", "PalomaModel.Props.Consts.C18"], gen=["ConstTable.lean"],
         harness_test="TestC18",
         n_quick=150, n_thorough=1500, thorough_seeds=8, timeout_quick=900,
         spec_ops=["*"],  # every observable the driver prints for this property is the property's own subject (canonical state / verdicts)
@@ -122,7 +122,7 @@ PROPS = {
         assumptions=["'only by the licensed address itself' holds as: the signer is the licensee, an address the licensee itself fee-granted (a MsgGrantAllowance is signed by its granter), or a sale client of the configured fee granter when governance set the fee granter to a licensed address (theorems activate_only_by_licensee_or_delegate, activate_only_by_licensee_or_own_delegate; the last case is the known finding C18-feegranter-licensee)"],
     ),
     "C09": dict(
-        lean_modules=["PalomaModel.Props.C09"], gen=["Panics.lean"],
+        lean_modules=["PalomaModel.Props.C09", "PalomaModel.Props.Consts.Schedule"], gen=["Panics.lean", "ConstTable.lean"],
         harness_test="TestC09",
         n_quick=8, n_thorough=8, thorough_seeds=4, timeout_quick=900, timeout_thorough=5000, env_thorough={"VERIF_BLOCKS": "10100"},
         spec_ops=["block"],
@@ -137,7 +137,7 @@ PROPS = {
         assumptions=["bonded stake stays below 2^63 ugrain (bounded by the bond-denom supply)"],
     ),
     "C10": dict(
-        lean_modules=["PalomaModel.Props.C10"],
+        lean_modules=["PalomaModel.Props.C10", "PalomaModel.Props.Consts.C10"], gen=["ConstTable.lean"],
         harness_test="TestC10",
         n_quick=300, n_thorough=3000, thorough_seeds=6, timeout_quick=900,
         spec_ops=["*"],  # every observable the driver prints for this property is the property's own subject (canonical state / verdicts)
@@ -182,7 +182,7 @@ PROPS = {
         assumptions=["a fee grant is total delegation (the property says so); handlers classified `open` with a reason in Props/C03.lean: RemoveSmartContractDeployment, SetLegacyLightNodeClients (workflow state anyone may trigger)"],
     ),
     "C06": dict(
-        lean_modules=["PalomaModel.Props.C06"],
+        lean_modules=["PalomaModel.Props.C06", "PalomaModel.Props.Consts.Queue"], gen=["ConstTable.lean"],
         harness_test="TestC06",
         n_quick=300, n_thorough=2500, thorough_seeds=6, timeout_quick=900,
         spec_ops=["*"],  # every observable the driver prints for this property is the property's own subject (canonical state / verdicts)
@@ -193,7 +193,7 @@ PROPS = {
         assumptions=["ReassignOrphanedMessages (keeps signatures while changing the relayer) has no caller in the repository (checked by the harness and by grep)"],
     ),
     "C14": dict(
-        lean_modules=["PalomaModel.Props.C14"],
+        lean_modules=["PalomaModel.Props.C14", "PalomaModel.Props.Consts.Queue"], gen=["ConstTable.lean"],
         harness_test="TestC14",
         n_quick=300, n_thorough=2500, thorough_seeds=6, timeout_quick=900,
         spec_ops=["*"],  # every observable the driver prints for this property is the property's own subject (canonical state / verdicts)
@@ -203,7 +203,7 @@ PROPS = {
         assumptions=[],
     ),
     "C12": dict(
-        lean_modules=["PalomaModel.Props.C12"],
+        lean_modules=["PalomaModel.Props.C12", "PalomaModel.Props.Consts.C12"], gen=["ConstTable.lean"],
         harness_test="TestC12",
         n_quick=300, n_thorough=3000, thorough_seeds=6, timeout_quick=900,
         spec_ops=["*"],  # every observable the driver prints for this property is the property's own subject (canonical state / verdicts)
@@ -214,7 +214,7 @@ PROPS = {
         assumptions=[],
     ),
     "C17": dict(
-        lean_modules=["PalomaModel.Props.C17"],
+        lean_modules=["PalomaModel.Props.C17", "PalomaModel.Props.Consts.C17"], gen=["ConstTable.lean"],
         harness_test="TestC17",
         n_quick=300, n_thorough=3000, thorough_seeds=6, timeout_quick=900,
         spec_ops=["*"],  # every observable the driver prints for this property is the property's own subject (canonical state / verdicts)
